@@ -362,6 +362,9 @@ func TestWorker(t *testing.T) {
 					if id := knownID(v); id != "" {
 						if target == "" {
 							out.KnownHits[id]++
+							for _, part := range v.Parts {
+								out.Stats.Probes["known finding "+id+": "+part]++
+							}
 						}
 						continue
 					}
